@@ -7,6 +7,7 @@ from the AST, structural facts of send_commands) + correspondence of the model a
 oracle: decided on the device's own received-bytes / executed-line log, independent of the model."""
 import json
 import os
+import re
 import time
 
 from . import c13_levels, common
@@ -390,6 +391,20 @@ def planned(kind, op, o):
     return sent, exp_flags, M
 
 
+def device_lines(sent):
+    """what the device executes when it receives the wire image of the lines (each line byte for byte + one return), read by the
+    device's own line discipline: CR, LF and CR LF each end a line, blank lines are not executed.  For a line without CR / LF in it
+    this is the line itself; a line that carries a terminator of its own ("description x\n", "x\r\n", "\nx") is still written
+    byte for byte and followed by its one return, the device then reads its segments."""
+    wire = b"".join(l.encode("utf-8") + b"\n" for l in sent)
+    return [s for s in re.split(b"\r\n|\r|\n", wire)[:-1] if s.decode("latin-1").strip()]
+
+
+def returns_inside(l):
+    """the line carries a CR / LF of its own after its text (the device has run the text before the line's own return arrives)"""
+    return bool(re.search("[\r\n]", l.lstrip()))
+
+
 def where(sent, k):
     """(line index, offset in that line, length of that line + return) of byte offset k of the wire"""
     pos = 0
@@ -520,9 +535,9 @@ def oracle_delivery(kind, op, o):
     lead = 0
     while lead < len(full) and full[lead][3]:
         lead += 1
-    user = [l for l in sent if dev_key(l)]
+    user = device_lines(sent)
     got = full[lead:lead + len(user)]
-    if [g[1] for g in got] != [l.encode("utf-8") for l in user] or any(g[3] for g in got):
+    if [g[1] for g in got] != user or any(g[3] for g in got):
         bad.append(("delivery-log", "device executed %r, expected the lines %r" % ([g[1] for g in full[lead:]][:8], user[:8])))
         return bad
     wrong_mode = [g for g in got if g[0] != tm]
@@ -1454,6 +1469,97 @@ def gen_malformed(rng, trans):
     return {"kind": kind, "stack": rng.choice(["sync", "async"]), "ops": [op], "policy": ["whole"]}
 
 
+# ------------------------------------------------------------------------------------------------
+# lines that carry a line terminator of their own (in-memory lists only: splitlines never leaves one in a file line or in a line
+# of a multi-line send_config): the return char / CR LF at the end, at the front, at both ends, followed by blanks, nothing else.
+# The oracle is the same: the line byte for byte, then one return.  Only shapes with ONE non-blank segment: a second one
+# ("a\nb") never comes back on the unchanged code (the echo read waits for "ab" in one piece) and is left out.  A line whose text
+# is followed by a terminator of its own is given no device output (which response such output would land in depends on how the
+# reads are chunked - a framing matter, not examined here), and these connections are read in whole chunks.
+# ------------------------------------------------------------------------------------------------
+TERMINATED = {
+    "tail-lf": lambda s, b: s + "\n",
+    "tail-crlf": lambda s, b: s + "\r\n",
+    "tail-lf-lf": lambda s, b: s + "\n\n",
+    "tail-lf-blank": lambda s, b: s + "\n" + b,
+    "tail-blank-lf": lambda s, b: s + b + "\n",
+    "head-lf": lambda s, b: "\n" + s,
+    "head-crlf": lambda s, b: "\r\n" + s,
+    "head-blank-lf": lambda s, b: b + "\n" + s,
+    "both-lf": lambda s, b: "\n" + s + "\n",
+    "both-crlf": lambda s, b: "\r\n" + s + "\r\n",
+    "only-lf": lambda s, b: "\n",
+    "only-crlf": lambda s, b: "\r\n",
+    "only-lf-lf": lambda s, b: "\n\n",
+}
+TERMINATED_TAIL = ["tail-lf", "tail-lf", "tail-crlf", "tail-lf-lf", "tail-lf-blank", "tail-blank-lf", "both-lf", "both-crlf"]
+
+
+def terminated_shape(l):
+    """which of the shapes a line is ("" = an ordinary line)"""
+    if not re.search("[\r\n]", l):
+        return ""
+    core = l.strip()
+    for name, f in TERMINATED.items():
+        for b in (" ", "  ", "\t"):
+            if name.startswith("only-") != (not core):
+                continue
+            if f(core, b) == l:
+                return name
+    return "other"
+
+
+def terminated_op(rng, kind, trans, name=None, lines=None, **force):
+    """one list op (send_commands / send_configs) in which at least one line carries its own terminator"""
+    name = name or rng.choice(["send_commands"] if kind == "generic" else ["send_commands", "send_configs", "send_configs"])
+    if lines is None:
+        n = rng.choice([1, 1, 2, 2, 3, 3, 4, 5])
+        lines = []
+        for _ in range(n):
+            s = gen_line(rng, trans)
+            while not dev_key(s) or len(s) > 120:
+                s = gen_line(rng, trans)
+            lines.append(s)
+        picks = set(rng.sample(range(n), rng.randint(1, max(1, (n + 1) // 2))))
+        for i in picks:
+            shape = rng.choice(TERMINATED_TAIL) if rng.random() < 0.6 else rng.choice(sorted(TERMINATED))
+            lines[i] = TERMINATED[shape](lines[i].strip() if rng.random() < 0.7 else lines[i], rng.choice([" ", "  ", "\t"]))
+    op = gen_op(rng, kind, trans, dict(force, op=name, lines=lines))
+    op["outs"] = ["" if returns_inside(l) else o for l, o in zip(op["lines"], op["outs"])]
+    return op
+
+
+def gen_terminated_scenario(rng, trans, kind=None, stack=None):
+    kind = kind or rng.choice(KINDS)
+    stack = stack or rng.choice(["sync", "async"])
+    ops = []
+    for _ in range(rng.choice([1, 1, 2])):
+        if ops and rng.random() < 0.3:             # an ordinary call after one with such lines
+            ops.append(gen_op(rng, kind, trans, {"op": rng.choice(["send_command", "send_commands"])}))
+        else:
+            ops.append(terminated_op(rng, kind, trans))
+    return {"kind": kind, "stack": stack, "ops": ops, "policy": ["whole"]}
+
+
+def terminated_corpus():
+    """every shape once per driver and stack, as the first, a middle and the last line of a list, eager and not"""
+    out = []
+    shapes = sorted(TERMINATED)
+    for ki, kind in enumerate(KINDS):
+        for si, stack in enumerate(("sync", "async")):
+            name = "send_commands" if kind == "generic" or (ki + si) % 3 == 0 else "send_configs"
+            ops = []
+            for j in range(3):
+                sh = shapes[(ki * 2 + si + j * 5) % len(shapes)]
+                t = TERMINATED[sh]("description x%d" % j, " ")
+                lines = [["interface lo0", t, "no shutdown"], [t, "description y"], ["interface lo0", t]][j]
+                eager = bool((ki + si + j) % 2) and bool(dev_key(lines[-1]))
+                ops.append({"op": name, "lines": lines, "outs": ["" if returns_inside(l) or not dev_key(l) else "ok" for l in lines],
+                            "fwc": None, "stop": bool(j % 2), "eager": eager, "priv": ""})
+            out.append({"kind": kind, "stack": stack, "policy": ["whole"], "ops": ops})
+    return out
+
+
 def corpus():
     """boundary shapes and the replays of all findings first"""
     out = []
@@ -1881,6 +1987,13 @@ def run(rep):
     # list histories (own generator state again): ONE list object handed to call after call, connection after connection
     rng_hist = random.Random(rep.seed * 1000003 + 0xC13C)
     histories = [jsonable(h) for h in list_history_corpus()] + [jsonable(gen_list_history(rng_hist, trans)) for _ in range(240 if thorough else 36)]
+    # lines that carry a terminator of their own (own generator state again)
+    rng_term = random.Random(rep.seed * 1000003 + 0xC13E)
+    for s in terminated_corpus():
+        scenarios.append(("terminated-lines", s))
+    for j in range(240 if thorough else 42):
+        scenarios.append(("terminated-lines", gen_terminated_scenario(rng_term, trans, kind=KINDS[j % len(KINDS)] if j < 2 * len(KINDS) else None,
+                                                                      stack=("sync", "async")[(j // len(KINDS)) % 2] if j < 2 * len(KINDS) else None)))
     runs = [(stream, scn, None) for stream, scn in scenarios]
     for h in histories:
         pool = new_pool(h)
@@ -1899,6 +2012,7 @@ def run(rep):
             "by_stream": {}, "by_kind": {}, "by_op": {}, "by_stack": {}, "lines_hist": {}, "stop": 0, "eager": 0, "policy": {},
             "fwc_kind": {}, "first_failing_pos": {}, "aborts_seen": 0, "unicode_lines": 0, "blank_lines": 0, "long_lines": 0,
             "nav_events": 0, "exceptions": {}, "stalled_calls": 0,
+            "lines_with_own_terminator": {"lines": 0, "calls": 0, "eager_calls": 0, "by_shape": {}, "by_op": {}, "by_position": {}},
             "long_multibyte_lines": 0, "repeated_lines": 0, "adjacent_repeats": 0, "max_line_bytes": 0, "line_bytes_hist": {},
             "marker_sets": {"sets": 0, "with_metachar": 0, "with_empty_marker": 0, "with_long_marker": 0, "with_nested_markers": 0,
                             "not_a_valid_pattern": 0, "driver_level": 0, "outputs": {}, "failed_flags": {"True": 0, "False": 0}}}
@@ -1981,6 +2095,19 @@ def run(rep):
                 dist["max_line_bytes"] = max(dist["max_line_bytes"], nb)
                 b = "0" if nb == 0 else "<=64" if nb <= 64 else "<=1024" if nb <= 1024 else "<=4096" if nb <= 4096 else ">4096"
                 dist["line_bytes_hist"][b] = dist["line_bytes_hist"].get(b, 0) + 1
+            if op["op"] in ("send_commands", "send_configs", "send_command"):
+                tl = dist["lines_with_own_terminator"]
+                shp = [(i, terminated_shape(l)) for i, l in enumerate(lines)]
+                shp = [(i, x) for i, x in shp if x]
+                if shp:
+                    tl["calls"] += 1
+                    tl["eager_calls"] += bool(op["eager"]) and op["op"] != "send_command"
+                    tl["lines"] += len(shp)
+                    tl["by_op"][op["op"]] = tl["by_op"].get(op["op"], 0) + 1
+                    for i, x in shp:
+                        tl["by_shape"][x] = tl["by_shape"].get(x, 0) + 1
+                        pos = "only" if len(lines) == 1 else "first" if i == 0 else "last" if i == len(lines) - 1 else "middle"
+                        tl["by_position"][pos] = tl["by_position"].get(pos, 0) + 1
             dist["nav_events"] += sum(1 for e in o["events"] if e[0] == "nav")
             if o["exc"]:
                 dist["exceptions"][o["exc"]] = dist["exceptions"].get(o["exc"], 0) + 1
@@ -2145,6 +2272,9 @@ def run(rep):
                 "user-supplied privilege levels (stream 'user-levels'): NX-OS / EOS / IOS-XR / Junos drivers constructed with 1-2 extra non-session levels "
                 "(8 names x 11 pattern spellings x 6 vendor shell modes), 1-3 calls per connection, pushes at the user's level (85 % stop_on_failed, failing "
                 "position sampled), at the session and the configuration levels, commands in between; "
+                "lines with a terminator of their own (stream 'terminated-lines'): send_commands / send_configs lists of 1-5 lines on every driver and "
+                "stack in which 1..half of the lines end in / start with / are wrapped in / consist of the return char or CR LF (13 shapes, each as "
+                "first, middle, last line in a fixed corpus), eager and not, unsplit reads, no device output for a line whose text is followed by its own terminator; "
                 "non-trivial = more than one line or an exception; distinct = (driver, stack, op)")
     seen = set()
     for scn, k, sig, text in fails:
@@ -2417,6 +2547,13 @@ MANIFEST = {
             "regenerated NX-OS / EOS drivers (both twins) extended by a user level, and shows the regenerated IOS-XR / Junos shapes to be unguarded "
             "(known findings C13-iosxr-abort-at-user-level, C13-junos-abort-at-user-level: replayed on both stacks on every run; the generated "
             "histories keep away from a failed stop_on_failed run at the user's level on those two platforms and explore everything else there). "
+            "Lines that carry a line terminator of their own (stream 'terminated-lines', all seven drivers, both stacks, send_commands and "
+            "send_configs lists, eager and not, stop_on_failed on/off, as first / middle / last / only line, an ordinary call afterwards): the "
+            "return char or CR LF at the end of the line (once, twice, followed by blanks, after trailing blanks), at its front, at both ends, and "
+            "lines that are nothing but terminators - shapes only an in-memory list can hold (splitlines never leaves one in a file line or in a "
+            "line of a multi-line send_config). Oracle unchanged: the device receives the line byte for byte and then one return (wire image and, "
+            "for a call that stalls, return-missing / delivery-altered); the executed-line log is compared with what the device's own line "
+            "discipline (CR, LF, CR LF each end a line) reads off that wire image. "
             "The implementation runs and the oracle do not depend on the translator: when gen_send refuses a changed _abort_config the "
             "failing-input search still runs on the real code and reports its inputs.",
     "note": "Proved on the model; the runtime is observed (partial): privilege navigation is abstracted to one event per acquire_priv call (its "
@@ -2424,8 +2561,15 @@ MANIFEST = {
             "the channel's echo/prompt reading is C01/C02's subject (the device output per line is an arbitrary function in the theorems and the observed "
             "result in the correspondence); the device-side theorems assume the device's mode is the believed level (C03) and that only navigation changes it. "
             "Strings are modelled as their UTF-8 encodings (str.splitlines / `in` on valid UTF-8), confronted with the real str operations by the correspondence run. "
-            "Generated lines avoid prompt-terminating characters, line terminators inside list elements, and vendor transition commands "
+            "Generated lines avoid prompt-terminating characters and vendor transition commands "
             "(the property's proviso that only the driver changes the device's mode); eager mode is run with unsplit reads and a non-blank last line. "
+            "Line terminators inside list elements occur in the stream 'terminated-lines' only, with ONE non-blank segment per line: such lines go "
+            "through the same modelled path (EW line, EW return; the theorems quantify over all byte lists, CR / LF included), so the wire image is "
+            "covered by the model, while the step from the wire image to the device's executed lines (its line discipline) is oracle-only there. "
+            "A line with two non-blank segments ('a\\nb') never comes back on the unchanged code without eager_input (the echo read waits for "
+            "'ab' in one piece; the channel's reading, C01/C02) and is left out; eager_input is not exercised by any stream. A line whose text is "
+            "followed by its own terminator is given no device output and these connections are read unsplit: the device answers the text before "
+            "the line's return arrives, and which response that output lands in depends on the read chunking (framing, not examined here). "
             "Very long and multi-byte lines go through the same modelled path (one transport.write per channel.write: EW line, EW return), so they are "
             "covered by the model and the theorems (which quantify over all byte lists), not oracle-only; a call that stalls is decided by the oracle "
             "alone (the model has no outcome for it) and a stall inside privilege navigation or after everything was delivered is reported as a harness "
